@@ -233,23 +233,27 @@ Proof.
   rewrite Q. reflexivity.
 Qed.
 
-Theorem legacy_base_no_squared ub : legacy_base ub None = ub.
+Theorem legacy_base_no_squared w ub : legacy_base w ub None = ub.
 Proof. reflexivity. Qed.
 
-(* with squared weights the legacy base is (unweighted N)^2 / sum w^2 ... *)
-Theorem legacy_base_squared ub s : legacy_base ub (Some s) = eff_base ub s.
+(* with squared weights the legacy base is the effective base of the WEIGHTED margin,
+   whatever the unweighted base *)
+Theorem legacy_base_squared w ub s : legacy_base w ub (Some s) = eff_base w s.
 Proof. reflexivity. Qed.
 
-(* ... which is NOT the effective base (sum w)^2 / sum w^2: two respondents of weight 2 *)
-Theorem legacy_effective_base_refuted :
-  exists (ws : list Q),
-    let ub := Fin (inject_Z (Z.of_nat (length ws))) in        (* unweighted column base *)
-    let w := Fin (qsum ws) in                                   (* weighted column base *)
-    let sq := Fin (qsum (map (fun x => x * x) ws)) in           (* squared-weight base *)
-    ~ (legacy_base ub (Some sq) =x= eff_base w sq).
-Proof.
-  exists [2; 2]. vm_compute. discriminate.
-Qed.
+(* from the respondents' weights: (sum w)^2 / sum w^2, for every list of weights and every
+   unweighted base (the statement that was refuted by two respondents of weight 2 before the
+   legacy path took the weighted margin) *)
+Theorem legacy_effective_base (ws : list Q) (ub : xq) :
+  ~ qsum (map (fun x => x * x) ws) == 0 ->
+  legacy_base (Fin (qsum ws)) ub (Some (Fin (qsum (map (fun x => x * x) ws)))) =x=
+  Fin (qsum ws * qsum ws / qsum (map (fun x => x * x) ws)).
+Proof. intros H. rewrite legacy_base_squared. apply eff_base_weights. exact H. Qed.
+
+Theorem legacy_effective_base_eq (ws : list Q) (ub : xq) :
+  legacy_base (Fin (qsum ws)) ub (Some (Fin (qsum (map (fun x => x * x) ws)))) =
+  eff_base (Fin (qsum ws)) (Fin (qsum (map (fun x => x * x) ws))).
+Proof. reflexivity. Qed.
 
 (* ---- Welch's test for means ---------------------------------------------------------------------- *)
 Definition qV (s n s0 n0 : Q) : Q := s * s / n + s0 * s0 / n0.
@@ -417,3 +421,79 @@ Qed.
 Theorem eff_block_cell W SQ i j : i < nrows W -> j < ncols W ->
   mnth (eff_block W SQ) i j = eff_base (mnth W i j) (mnth SQ i j).
 Proof. intros Hi Hj. unfold eff_block. apply tab2_mnth; assumption. Qed.
+
+(* ---- the legacy path, cell by cell --------------------------------------------------------------- *)
+Theorem legacy_t_cell props W UB sq c i j : i < nrows props -> j < ncols props ->
+  mnth (legacy_t props W UB sq c) i j =
+  legacy_tabs (mnth props i j)
+              (legacy_base (mnth W i j) (mnth UB i j) (option_map (fun v => vnth v j) sq))
+              (mnth props i c)
+              (legacy_base (mnth W i c) (mnth UB i c) (option_map (fun v => vnth v c) sq)).
+Proof. intros Hi Hj. unfold legacy_t. rewrite tab2_mnth by assumption. reflexivity. Qed.
+
+Lemma eff_block_nrows W SQ : nrows (eff_block W SQ) = nrows W.
+Proof. unfold eff_block. apply tab2_nrows. Qed.
+
+(* legacy statistic == matrix-path statistic (reference = column c of the same display
+   matrices, bases = effective bases of the weighted margins W and per-cell squared bases SQ)
+   in every row whose squared bases are the ones the legacy path is given *)
+Theorem legacy_matches_matrix_path props W UB SQ sqv c i j (s : Q) :
+  i < nrows props -> j < ncols props -> c < ncols props ->
+  nrows W = nrows props -> ncols W = ncols props ->
+  mnth SQ i j = vnth sqv j -> mnth SQ i c = vnth sqv c ->
+  xadd (prop_var (mnth props i j) (mnth (eff_block W SQ) i j))
+       (prop_var (mnth props i c) (mnth (eff_block W SQ) i c)) = Fin s -> (0 <= s)%Q ->
+  mnth (legacy_t props W UB (Some sqv) c) i j =x=
+  mnth (pw_tblock props (eff_block W SQ) (mcol props c) (mcol (eff_block W SQ) c)) i j.
+Proof.
+  intros Hi Hj Hc HrW HcW Ej Ec HS Hs.
+  rewrite legacy_t_cell by assumption.
+  rewrite pw_tblock_cell by assumption.
+  rewrite (mcol_vnth props c i) by exact Hi.
+  rewrite (mcol_vnth (eff_block W SQ) c i)
+    by (change (length (eff_block W SQ)) with (nrows (eff_block W SQ));
+        rewrite eff_block_nrows, HrW; exact Hi).
+  simpl option_map. rewrite !legacy_base_squared.
+  rewrite <- Ej, <- Ec.
+  assert (Hi' : i < nrows W) by (rewrite HrW; exact Hi).
+  assert (Hj' : j < ncols W) by (rewrite HcW; exact Hj).
+  assert (Hc' : c < ncols W) by (rewrite HcW; exact Hc).
+  rewrite (eff_block_cell W SQ i j Hi' Hj') in *.
+  rewrite (eff_block_cell W SQ i c Hi' Hc') in *.
+  apply (legacy_tabs_eq _ _ _ _ s HS Hs).
+Qed.
+
+(* the legacy path is given the FIRST row of the squared bases (columns_squared_base): the
+   equality holds in the first row, and in every row when the rows share their column bases
+   (categorical rows) *)
+Theorem legacy_matches_matrix_path_first_row props W UB SQ c i j (s : Q) :
+  i < nrows props -> j < ncols props -> c < ncols props ->
+  nrows W = nrows props -> ncols W = ncols props ->
+  mrow SQ i = mrow SQ 0 ->
+  xadd (prop_var (mnth props i j) (mnth (eff_block W SQ) i j))
+       (prop_var (mnth props i c) (mnth (eff_block W SQ) i c)) = Fin s -> (0 <= s)%Q ->
+  mnth (legacy_t props W UB (Some (mrow SQ 0)) c) i j =x=
+  mnth (pw_tblock props (eff_block W SQ) (mcol props c) (mcol (eff_block W SQ) c)) i j.
+Proof.
+  intros Hi Hj Hc HrW HcW E HS Hs.
+  apply (legacy_matches_matrix_path props W UB SQ (mrow SQ 0) c i j s); try assumption.
+  - unfold mnth. fold (mrow SQ i). rewrite E. reflexivity.
+  - unfold mnth. fold (mrow SQ i). rewrite E. reflexivity.
+Qed.
+
+(* ... but NOT in a later row of a table whose rows have their own bases (MR rows): the
+   legacy base there is W[i,j]^2 / SQ[0,j].  Two MR row items, weighted margins 4, squared
+   bases 8 (item 0) and 4 (item 1, column 0): matrix path n = 4, legacy n = 2 *)
+Theorem legacy_squared_base_first_row_refuted :
+  exists (props W UB SQ : mat) (c i j : nat),
+    i < nrows props /\ j < ncols props /\ c < ncols props /\
+    nrows W = nrows props /\ ncols W = ncols props /\
+    ~ (mnth (legacy_t props W UB (Some (mrow SQ 0)) c) i j =x=
+       mnth (pw_tblock props (eff_block W SQ) (mcol props c) (mcol (eff_block W SQ) c)) i j).
+Proof.
+  exists [[Fin (1#2); Fin (1#4)]; [Fin (1#2); Fin (1#4)]],
+         [[Fin 4; Fin 4]; [Fin 4; Fin 4]],
+         [[Fin 2; Fin 2]; [Fin 2; Fin 2]],
+         [[Fin 8; Fin 8]; [Fin 4; Fin 8]], 0, 1, 1.
+  vm_compute. repeat split; try lia; discriminate.
+Qed.
